@@ -13,7 +13,7 @@ THEOREMS = [
     ('EAO.Properties.C07', 'EAO.C07.rowless_not_in_nodal', 'a variable without mapping row occurs in no nodal row'),
     ('EAO.Properties.C07', 'EAO.C07.nodal_rows_exact', 'exactly one nodal row per (node not skipped, step) that has dispatch, none otherwise; the nodal record lists them in order'),
 ]
-COMPONENTS = ['assemble (all aspects, positional) on captured real asset problems']
+COMPONENTS = ['hypotheses of the assembly theorems (well-formedness of asset problems) evaluated on every captured real asset problem', 'assemble (all aspects, positional) on captured real asset problems']
 RULE = ('random portfolios incl. order books with out-of-horizon orders (row-less variables), transports/multi-commodity (several rows per variable), '
         'MIP assets and scaled assets (appended variables), adversarial asset/node names; non-trivial = problem with >= 2 assets and >= 1 nodal row; distinct by scenario hash')
 ASSUMPTIONS = []
@@ -24,7 +24,9 @@ def scenarios(seed, tier):
     n = 300 if tier == 'quick' else 3000
     rnd = random.Random(seed * 7919 + 7)
     for i in range(n):
-        s = gen.gen_portfolio(random.Random(rnd.getrandbits(48)), tmax=12 if tier == 'quick' else 20, adv_names=(i % 3 == 0))
+        s = gen.gen_portfolio(random.Random(rnd.getrandbits(48)), tmax=12 if tier == 'quick' else 20, adv_names=(i % 3 == 0),
+                              allow_freq=(i % 4 != 3))
+        s['split'] = (i % 4 == 3)
         yield 'gen%d' % i, s
 
 
@@ -124,6 +126,18 @@ def structural(rec):
             if got != want or op.b[Nrows[k]] != 0:
                 bad('nodal row of node %s step %d has coefficients %s, dispatch rows say %s' % (nn, t, dict(list(got.items())[:4]), dict(list(want.items())[:4])), what='nodal_coeffs')
                 break
+    # internal variables are labelled with steps at which the asset is active (has dispatch variables)
+    for a in portf.assets:
+        if type(a).__name__ in ('StructuredAsset', 'LinkedAsset'):
+            continue
+        rows = m[m['asset'] == a.name] if len(m) else m
+        if not len(rows):
+            continue
+        ds = set(int(t) for t in rows[rows['type'] == 'd']['time_step'].values)
+        iis = set(int(t) for t in rows[rows['type'] == 'i']['time_step'].values)
+        if ds and not iis <= ds:
+            bad('asset %r: internal variables are labelled with steps %s at which the asset has no dispatch variable (its active steps: %d..%d)' % (
+                a.name, sorted(iis - ds)[:4], min(ds), max(ds)), what='internal_steps', asset_type=type(a).__name__)
     # stand-alone problems of the assets
     for a in portf.assets:
         cap = rec['captured'][a.name]
@@ -150,6 +164,8 @@ def run_case(scn, drv):
     except Exception as e:
         feats.append('setup-error:' + impl.err_class(e))
         return r
+    r['disagreements'] += pf.hyp_wf(rec)
+    feats.append('hypotheses-evaluated')
     r['disagreements'] += pf.corr_assemble(rec, drv)
     r['violations'] += structural(rec)
     op = rec['op']
@@ -161,5 +177,30 @@ def run_case(scn, drv):
     if pf.is_mip(op):
         feats.append('booleans')
     r['nontrivial'] = len(rec['portf'].assets) >= 2 and op.cType.count('N') >= 1
+    if scn.get('split'):
+        # every interval problem of a split set-up is itself an assembled problem and must stay faithfully described by its own mapping
+        try:
+            rs = pf.setup_split(scn, pf.split_interval(scn, rec['tg']))
+            feats.append('split')
+            r['evaluated'] += 1
+            for k, o in enumerate(rs['op'].ops):
+                nk = len(o.c)
+                mk = o.mapping
+                if len(mk) and (mk.index.max() >= nk or mk.index.min() < 0):
+                    r['violations'].append({'oracle': 'mapping_structure', 'detail': 'split: interval %d: its own mapping points at variable %d of %d' % (k, int(mk.index.max()), nk), 'facts': {'what': 'interval_index'}})
+                    break
+                Tk = int(mk['time_step'].max()) + 1 if len(mk) else 0
+                if len(o.map_nodal_restr) and max(int(t) for t, _ in o.map_nodal_restr) >= rec['tg'].T:
+                    r['violations'].append({'oracle': 'mapping_structure', 'detail': 'split: interval %d: nodal record beyond the grid' % k, 'facts': {'what': 'interval_nodal'}})
+                    break
+                if o.A is not None and o.A.shape[1] != nk:
+                    r['violations'].append({'oracle': 'mapping_structure', 'detail': 'split: interval %d: matrix has %d columns for %d variables' % (k, o.A.shape[1], nk), 'facts': {'what': 'interval_sizes'}})
+                    break
+            jm = rs['op'].mapping
+            ntot = sum(len(o.c) for o in rs['op'].ops)
+            if len(jm) and (jm.index.max() >= ntot or len(rs['op'].c) != ntot):
+                r['violations'].append({'oracle': 'mapping_structure', 'detail': 'split: joint mapping reaches variable %d of %d' % (int(jm.index.max()), ntot), 'facts': {'what': 'joint_index'}})
+        except Exception as e:
+            feats.append('split-error:' + impl.err_class(e))
     r['observed'] = {'n_vars': len(op.c), 'n_rows': len(op.cType), 'n_mapping_rows': len(op.mapping)}
     return r
